@@ -88,6 +88,7 @@ def normalise(case, obs, is_model):
     B, per, impl = (MODEL_BLOCK, 4, False) if is_model else (IMPL_BLOCK, 7, True)
     out = []
     k = 0
+    ops = parse(case)
     while k < len(obs):
         if obs[k] == [99] or len(obs) - k < B:
             out.append({"ret": [99]})
@@ -109,7 +110,10 @@ def normalise(case, obs, is_model):
             for j in range(NOBJ):
                 if objs[j]["hdr"] == [-1]:
                     objs[j] = {"hdr": [], "lens": [], "bytes": None, "digest": [], "extra": [[]]}
-        out.append({"ret": blk[0], "objs": objs, "glob": blk[-1] if impl else None, "impl": impl})
+        ret = blk[0]
+        if impl and len(out) < len(ops) and ops[len(out)][1][0] == "an":
+            ret = ret[:1]          # the second number says whether push() borrowed or copied the anchored bytes (used by fam_anch)
+        out.append({"ret": ret, "raw_ret": blk[0], "objs": objs, "glob": blk[-1] if impl else None, "impl": impl})
     return out
 
 
